@@ -15,7 +15,7 @@ def kindOfName : String → Option EKind
   | _ => none
 
 def nameOfKind : EKind → String
-  | .key => "KeyError" | .type => "TypeError" | .value => "ValueError" | .aascv => "AASConstraintViolation"
+  | .key => "KeyError" | .type => "TypeError" | .value => "ValueError" | .aascv => "AASConstraintViolation" | .other => "Other"
 
 def kinds (l : List String) : List EKind := l.filterMap kindOfName
 def points (p : List (String × List (String × Bool × Bool × List String))) : List RecClass :=
@@ -25,7 +25,7 @@ partial def dwireOfJson (j : Json) : DWire :=
   match jarr j with
   | [.str "t", .str s, .bool f] => .tok s f
   | [.str "t", .str s] => .tok s false
-  | [.str "b", .str k] => .bad ((kindOfName k).getD .type)
+  | [.str "b", .str k] => .bad ((kindOfName k).getD .other)      -- an undocumented kind is caught by no handler
   | [.str "a", .arr xs] => .arr (xs.toList.map dwireOfJson)
   | [.str "o", tag, .arr ms] =>
     .obj (match tag with | .str t => some t | _ => none)
